@@ -232,5 +232,11 @@ def run(chk: Check) -> None:
     from .c13 import rule_e1b
 
     rule_e1b(chk, "Z6", ["client.protocol:GeminiClientProtocol"])
+    # Z7: each location is served by the handler built from its own settings (= C17.Y5):
+    # a shared handler applies another location's timeout
+    from .c17 import rule_y5
+    from .common import reuse
+
+    reuse(chk, rule_y5, "Z7", "each proxy location is registered with the handler built from its own upstream / prefix / timeout, and the router returns the first match (= C17.Y5)", ("Y5",))
     chk.trusted = ["CPython ast parser", "engine CFG / abstract evaluator", "str.encode(X) inverts bytes.decode(X) for the charset the upstream declared", "C01.W3 sanitises whatever header the upstream sent"]
     chk.assumptions = ["byte-exact relay for codecs whose decode/encode is not a bijection (BOMs, stateful encodings) is not decided"]
